@@ -1,4 +1,5 @@
 SPECIFICATION Spec
+CONSTANTS Repaired = {8, 9, 11}
 INVARIANTS Judge
 POSTCONDITION AllConsumed
 CHECK_DEADLOCK FALSE
